@@ -348,7 +348,8 @@ def r20_3(ctx: Ctx, R: Resolver):
             g_ = cguards_of(c, pmc)
             reg = "ParserManager.parsers" if "coord" in which else "TopologyParserManager.parsers"
             # the extension variable: last dot-separated piece of the base name
-            exts = [b_["V_e"] for _, b_ in pfind(cf.node, "V_e = V_n.split('.')[-1]")]
+            exts = [b_["V_e"] for _, b_ in pfind(cf.node, "V_e = E_n.split('.')[-1]")] + \
+                [b_["V_e"] for _, b_ in pfind(cf.node, "V_e = E_n.rsplit('.', 1)[-1]")]
             ext = exts[0] if exts else "extension"
             ctx.ob("R20.3", cf, c, g_ == [ctext("%s in %s" % (ext, reg))],
                    "a file is a %s candidate exactly when its extension has a registered %s parser" % (
